@@ -38,6 +38,10 @@ LIB = {
     "twice": ([("match", "p"), ("out", "a"), ("out", "b")], "{p}; {a} = [{a} + 1]; \",\"; {p}; {b} = [{b} + 2]; h(); \";\";"),
     "fwd2": ([("match", "p"), ("out", "a"), ("out", "b")], "@one({a}, {p}); \",\"; @one({b}, {p}); g(); \";\";"),
     "pair": ([("match", "p")], "@one(n, ({p} \"!\"));"),
+    # an expr parameter named like an output (the parameter wins inside the macro), and like the out parameter of an enclosing macro
+    "shadow": ([("expr", "n"), ("out", "o")], "{o} = [({n}) * 2]; \"x\"; if {n} > 3 {{ h(); }}"),
+    "inner": ([("expr", "x")], "n = [{x} + 1]; \"i\";"),
+    "outer": ([("out", "x")], "{x} = [3]; @inner([5]); g();"),
     "casey": ([("match", "p"), ("match", "q"), ("hook", "hk")], "case {{ {p} -> {{ {hk}(); }} {q} -> {{ n = [7]; }} else -> {{ }} }}"),
 }
 
@@ -144,7 +148,7 @@ def random_args(rnd, name):
         elif k == "match":
             args.append(rnd.choice(MATCH_ARGS))
         elif k == "expr":
-            args.append(rnd.choice(EXPR_ARGS))
+            args.append(rnd.choice([e for e in EXPR_ARGS if name != "shadow" or "n" not in e.replace("len", "")]))
         elif k == "hook":
             args.append(rnd.choice(HOOKS))
         elif k == "finishcode":
@@ -187,6 +191,10 @@ def twins(n, seed=0):
         [("fwd2", ['/[ab]c/', "m", "n"])],
         [("pair", ['"a"']), ("pair", ['"b"'])],
         [("pair", ['/c+/']), ("two", ["m", "n"]), ("pair", ['"d"'])],
+        [("shadow", ["[m + 1]", "m"])],
+        [("shadow", ["5", "m"]), ("shadow", ["[m * 2]", "m"])],
+        [("outer", ["m"])],
+        [("outer", ["n"]), ("shadow", ["[m]", "m"])],
     ]
     seqs = list(fixed)
     for _ in range(max(0, n - len(fixed))):
